@@ -31,7 +31,7 @@ LAD = {"CENTERDISTANCE": [-1.0, 0.0, 0.1, 0.5, 1.0, 2.0, 4.0, 50.0], "PLANEDISTA
        "IOU2D": [1.0, 0.9, 0.7, 0.5, 0.3, 0.1, 0.0], "IOU3D": [1.0, 0.9, 0.7, 0.5, 0.3, 0.1, 0.0]}
 DIST_LEVELS = [0.1, 0.4, 0.8, 1.5, 3.0, 10.0]
 SYMS = ["d0", "d1", "d2", "d3", "d4", "d5", "h", "N", "I"]
-SYMS6 = ["d0", "d2", "d3", "d4", "h", "N"]
+SYMS6 = ["d0", "d2", "d3", "d4", "h", "N", "w"]
 CAR, PED = AutowareLabel.CAR, AutowareLabel.PEDESTRIAN
 _POOL = {}
 _SEED = [0]
@@ -53,6 +53,12 @@ def _proto(sym, rank, label="CAR"):
             g = G.mk3d(dict(x=x + 0.1, y=2.0, yaw=0.3, label=other, uuid="g%d" % rank, size=[2.0, 4.0, 1.5]))
         elif sym == "h":
             g = G.mk3d(dict(x=x + 0.3, y=2.0, yaw=0.3 + 2.0, label=label, uuid="g%d" % rank, size=[2.0, 4.0, 1.5]))
+        elif sym == "w":
+            # a map-frame pair 0.8 m apart whose yaws lie on the two sides of +-pi (3.10 / -3.10: 0.083 rad apart)
+            ego = (4.0, -2.0, 0.0)
+            e = G.mk3d(dict(x=x, y=2.0, yaw=3.10, label=label, score=round(0.97 - 0.05 * rank, 4), uuid="e%d" % rank, size=[2.0, 4.0, 1.5]), "map", ego)
+            g = G.mk3d(dict(x=x + 0.8, y=2.0, yaw=-3.10, label=label, uuid="g%d" % rank, size=[2.0, 4.0, 1.5]), "map", ego)
+            return DynamicObjectWithPerceptionResult(e, g, transforms=G.transforms(ego))
         else:
             d = DIST_LEVELS[int(sym[1])]
             g = G.mk3d(dict(x=x + d, y=2.0, yaw=0.3 + 0.05 * int(sym[1]), label=label, uuid="g%d" % rank, size=[2.0, 4.0, 1.5]))
@@ -72,6 +78,9 @@ def units(tier, seed):
     # become TPs only at looser thresholds
     for n in ((1003, 2008) if tier == "quick" else (1003, 1502, 2008, 3001)):
         u.append(dict(layer="long", n=n))
+    # three target labels (two of them may hold exactly equal AP values), thresholds loosened together
+    for k in range(4):
+        u.append(dict(layer="three", chunk=[k, 4]))
     for pol in (("DEFAULT", "ALLOW_ANY") if tier == "quick" else S.POLICIES):
         for k in range(8):
             u.append(dict(layer="b", policy=pol, grid=tier != "quick", nest=8 if tier == "quick" else 10, chunk=[k, 8]))
@@ -83,6 +92,13 @@ def bounds(tier, seed):
 
 
 def run_unit(unit, acc):
+    if unit["layer"] == "three":
+        per_label = [seq for L in (1, 2) for seq in itertools.product(["d0", "d3", "N", "d5"], repeat=L)]
+        k, n = unit["chunk"]
+        for idx, (a, b, c) in enumerate(itertools.product(per_label, per_label[::2], per_label[::3])):
+            if idx % n == k:
+                check_case(dict(layer="three", seqs=[list(a), list(b), list(c)]), acc)
+        return
     if unit["layer"] == "long":
         for tail in (["d3"], ["d2", "d4"], ["d3", "N", "d4"]):
             check_case(dict(layer="long", n=unit["n"], tail=tail), acc)
@@ -182,6 +198,30 @@ def _walk(case, res_by_label, all_res, gts, gcount, labels, mode, lad, acc, bad)
     return changes, ev(0, 0), ev(n - 1, n - 1)
 
 
+def _check_three(case, acc, bad):
+    from perception_eval.common.label import AutowareLabel
+    from perception_eval.evaluation.metrics.detection.map import Map
+    labels = [CAR, PED, AutowareLabel.BICYCLE]
+    names = ["CAR", "PEDESTRIAN", "BICYCLE"]
+    res = {lab: [[_proto(sy, 3 * i + li, names[li]) for i, sy in enumerate(seq)]] for li, (lab, seq) in enumerate(zip(labels, case["seqs"]))}
+    gcount = {lab: max(1, sum(1 for sy in seq if sy != "N")) for lab, seq in zip(labels, case["seqs"])}
+    prev = None
+    for thr in LAD["CENTERDISTANCE"]:
+        acc.exec()
+        mp = Map({l: [list(v[0])] for l, v in res.items()}, gcount, labels, MatchingMode.CENTERDISTANCE, [thr] * 3)
+        acc.compared()
+        aps = [a.ap for a in mp.aps]
+        fin = [a for a in aps if a != float("inf")]
+        if fin and abs(mp.map - sum(fin) / len(fin)) > 1e-12:
+            bad("three:map-not-mean", "mAP %r over three labels with APs %s is not their mean %r (threshold %s)" % (mp.map, aps, sum(fin) / len(fin), thr))
+        cur = dict(tp=[], fn=0, tn=0, aps=aps, aphs=[a.ap for a in mp.aphs], map=mp.map, maph=mp.maph)
+        if prev is not None:
+            _mono(prev, cur, bad, "three labels, all thresholds %s -> %s" % (prev_thr, thr))
+        prev, prev_thr = cur, thr
+        acc.state(("three", tuple(map(tuple, case["seqs"])), thr, tuple(round(a, 6) for a in aps)), nontrivial=len(set(fin)) < len(fin))
+    acc.outcome(("three", round(prev["map"], 4)))
+
+
 def _check_long(case, acc, bad):
     from mc.ref import ap as RAP
     from perception_eval.evaluation.metrics.detection.ap import Ap
@@ -230,6 +270,8 @@ def check_case(case, acc):
 
     if case["layer"] == "long":
         return _check_long(case, acc, bad)
+    if case["layer"] == "three":
+        return _check_three(case, acc, bad)
     if case["layer"] == "a":
         seq = case["seq"]
         car = [_proto(s, i, "CAR") for i, s in enumerate(seq)]
